@@ -5,6 +5,11 @@ VERIF = os.path.dirname(os.path.dirname(os.path.abspath(__file__)))
 
 # id -> (category, technique, level text, level note, design ref)
 CHECKS = {
+ "C20": ("translation_validation",
+         "runtime monitoring: differential transcript monitor - two builds of the crate (shipped generated code vs. fresh macro expansion of the DSL by the in-tree generator) linked into one process, fed the same bytes, transcripts compared",
+         "The shipped a2lfile and a variant whose specification module is the macro invocation (specification_orig.rs, expanded by the in-tree a2lmacros; every other module is the same source file through a symlink farm recreated from /repo on every run) are linked into one binary. Every input (systematic per-kind documents with all optional sub-elements at legal and re-declared versions, random grammar documents in wide layouts with inserted unknown elements, hostile inputs; strict and non-strict, fragment entry point) is loaded by both; Ok/Err and error text, every log entry, the Debug view of the model, the written text and the texts after sort(), sort_new_items(), merge_includes() and the check() report must agree. ~44 000 / >2 000 000 transcript pairs.",
+         "trusts: the two builds differ only in the specification module; Debug compared as a line multiset; programs = inputs x modes compared",
+         "DESIGN.md section 3 C20"),
  "C04": ("exploration",
          "runtime monitoring: diagnostic-class monitor over a systematic enumeration of the frozen reference grammar (valid forms with sentinel read-back, single deviations, version gating x six versions) plus random whole documents judged against diagnostics predicted from the reference grammar",
          "Every element kind (all 203 tags) x {valid form with sentinel values read back from the model, each optional sub-element, each dropped parameter, each duplicated optional, missing required, wrong block form, unknown enum word} and every version-gated sub-element / enum item x the six ASAP2 versions is generated from the frozen copy of the specification DSL, loaded strict and non-strict and judged by the expected diagnostic class; random documents generated for one version are declared at another and must yield exactly the diagnostics the reference grammar predicts. ~2 800 systematic documents (complete in both tiers) + 2 000 / 100 000 random documents.",
